@@ -485,9 +485,20 @@ impl P2p {
         // User can give us a bad header, so validate it.
         from.validate().map_err(|_| HeaderExError::InvalidRequest)?;
 
+        if amount == 0 {
+            // Nothing was requested. A session for an empty range would keep
+            // retrying a zero-amount request forever.
+            return Ok(Vec::new());
+        }
+
+        // `amount >= 1`, so if the last height is representable the first one is too.
+        let last_height = from
+            .height()
+            .checked_add(amount)
+            .ok_or(HeaderExError::InvalidRequest)?;
         let height = from.height() + 1;
 
-        let range = height..=height + amount - 1;
+        let range = height..=last_height;
 
         let mut session = HeaderSession::new(range, self.cmd_tx.clone());
         let headers = session.run().await?;
